@@ -117,7 +117,8 @@ def oracle(ctx, only=None):
         for mk in kinds:
             for rep in range(reps):
                 for attempt in range(3):
-                    m, desc = _quiet(c03_oracle.make_mesh, rd, mk, rng, reorder=not opt.get('no_reorder'))
+                    m, desc = _quiet(c03_oracle.make_mesh, rd, mk, rng, reorder=not opt.get('no_reorder'),
+                                     min_quality=0.45 if 'tol' in opt else 0.0)
                     if np.count_nonzero(m.f2t[1] != -1) > 0:
                         break
                 try:
@@ -146,7 +147,7 @@ def oracle(ctx, only=None):
 def run(ctx, only=None):
     ctx.trusted += ['symbolic executor vlib/c09_sym.py (corresponded with the numerical lbasis by check C09)',
                     'certificate generators of vlib/c03_gen.py (psi, signs, induced permutations: re-checked inside Coq)',
-                    'InteriorFacetBasis / mapping.G / mapping.invF / mapping.normals of the library in the oracle (floats, tolerance '
+                    'ElementGlobal family (numerical Vandermonde inverse): Delaunay cells restricted to shape quality >= 0.45; InteriorFacetBasis / mapping.G / mapping.invF / mapping.normals of the library in the oracle (floats, tolerance '
                     f'{c03_oracle.TOL}, {c03_oracle.GLOBAL_TOL} for the ElementGlobal family)']
     ctx.assumptions += ['shared entity => shared global DOF number is C04; f2t lists exactly the cells of a facet is C11',
                         'the physical area-weighted normal of a mapped facet is |det| A^-T n (Nanson); not formalised',
